@@ -171,23 +171,30 @@ def namemode(case):
             setattr(FG, n_, c_)
         d = tempfile.mkdtemp(dir=_rp.MODE['tmp']) if _rp.MODE['replay'] else tempfile.mkdtemp(prefix='c13cfg')
         try:
-            paths = []
-            for sub, xv in (('a', 10), ('b', 20)):
+            # two members whose prerequisite configs are a/settings.json and b/settings.json; the prerequisite's task
+            # keeps its result in memory (in name mode both would otherwise write to <task>/settings.json)
+            pcl = family.make_pipeline([P('Scale', params=[par('x')], data='mem'), P('Report', inputs=[inp('Scale')])])
+            for n_, c_ in pcl.items():
+                setattr(FG, n_, c_)
+            mains = []
+            for i, (sub, xv) in enumerate((('a', 10), ('b', 20))):
                 os.makedirs(os.path.join(d, sub))
                 pth = os.path.join(d, sub, 'settings.json')
                 with open(pth, 'w') as f:
-                    json.dump({'tasks': [f'ref.family_gen.{n_}' for n_ in world.classes], 'x': xv}, f)
-                paths.append(pth)
-            fcfgs = [Config(fs.path('/data2'), p_, name=f'file{i}') for i, p_ in enumerate(paths)]
+                    json.dump({'tasks': ['ref.family_gen.Scale'], 'x': xv}, f)
+                mp = os.path.join(d, f'main{i}.json')
+                with open(mp, 'w') as f:
+                    json.dump({'tasks': ['ref.family_gen.Report'], 'uses': [pth]}, f)
+                mains.append(mp)
             try:
-                mcf = MultiChain(fcfgs, parameter_mode=False)
-                vals = [family.norm_input(mcf[f'file{i}'].tasks['a'].value) for i in range(2)]
+                mcf = MultiChain([Config(fs.path('/data2'), p_) for p_ in mains], parameter_mode=False)
+                vals = [family.norm_input(mcf[f'main{i}'].tasks['report'].value) for i in (1, 0)][::-1]
                 err = None
             except Exception as e:
                 vals, err = None, f'{type(e).__name__}: {e}'[:150]
-            exp = [{'t': 'a', 'p': {'x': 10}, 'i': {}}, {'t': 'a', 'p': {'x': 20}, 'i': {}}]
-            # (in name mode both write to <task>/<name>: distinct names file0 / file1 keep them apart)
-            ctx.check_concrete(vals == exp, 'member=standalone', {'mode': 'name', 'what': 'same-named config files', 'got': repr(vals)[:200], 'error': err})
+            exp = [{'t': 'report', 'p': {}, 'i': {'scale': {'t': 'scale', 'p': {'x': xv}, 'i': {}}}} for xv in (10, 20)]
+            ctx.check_concrete(vals == exp, 'member=standalone', {'mode': 'name', 'what': 'same-named prerequisite config files',
+                                                                  'got': repr(vals)[:300], 'error': err})
             # from_dir builds one chain per config file, whatever its format
             os.makedirs(os.path.join(d, 'dir'))
             with open(os.path.join(d, 'dir', 'one.json'), 'w') as f:
